@@ -56,6 +56,9 @@ impl<'de, T> Visitor<'de> for TooDeeVisitor<T>
                     num_rows = Some(visitor.next_value::<usize>()?)
                 },
                 "data" => {
+                    if data.is_some() {
+                        return Err(de::Error::duplicate_field("data"));
+                    }
                     data = Some(visitor.next_value::<Vec<T>>()?)
                 },
                 other => return Err(de::Error::unknown_field(other, FIELDS)),
